@@ -70,6 +70,55 @@ Theorem C16_mboxrd_quoted_never_separator : forall l : str, is_from_line (esc_li
 Proof. exact esc_not_from. Qed.
 Print Assumptions C16_mboxrd_quoted_never_separator.
 
+(* MBOX_FROM_PATTERN, declaratively: a line is a separator exactly when it is "From ", a non-white-space byte, anything,
+   four digits, an optional CR and the LF (sound and complete; covers "From - ..." of Thunderbird, asctime with numeric
+   zone before the year, CRLF line ends; NOT "... 2024 remote from host" and not a last line without line end) *)
+Theorem C16_from_line_sound :
+  forall l : str, is_from_line l = true ->
+    exists a mid d1 d2 d3 d4 tail, l = from_shape a mid d1 d2 d3 d4 tail /\ b_is_ws a = false /\
+      b_is_digit d1 = true /\ b_is_digit d2 = true /\ b_is_digit d3 = true /\ b_is_digit d4 = true /\ line_end tail = true.
+Proof. exact from_line_sound. Qed.
+Print Assumptions C16_from_line_sound.
+
+Theorem C16_from_line_complete :
+  forall (a : N) (mid : str) (d1 d2 d3 d4 : N) (tail : str),
+    b_is_ws a = false -> b_is_digit d1 = true -> b_is_digit d2 = true -> b_is_digit d3 = true -> b_is_digit d4 = true ->
+    line_end tail = true -> is_from_line (from_shape a mid d1 d2 d3 d4 tail) = true.
+Proof. exact from_line_complete. Qed.
+Print Assumptions C16_from_line_complete.
+
+Example C16_from_line_hyp :
+  is_from_line (from_shape 45 (s " Mon Jan 01 00:00:00 ") 50 48 50 52 [CR; NL]) = true /\
+  is_from_line (s "From u@x Mon Jan  1 00:00:00 2024 remote from host" ++ [NL]) = false.
+Proof. split; vm_compute; reflexivity. Qed.
+Print Assumptions C16_from_line_hyp.
+
+(* ANY quoting scheme that turns no line into a separator and keeps lines lines gives one result per message, in
+   order; mboxo (only "From " lines get a ">") is one *)
+Theorem C16_mbox_any_quoting_one_per_message :
+  forall f : str -> str,
+    (forall l, is_from_line (f l) = false) -> (forall l, is_line (f l) = is_line l) ->
+    forall msgs : list mbox_msg, forallb lines_ok msgs = true ->
+      split_mbox_messages (mbox_file (map (qmsg f) msgs)) = split_result (map (qmsg f) msgs).
+Proof. exact quoted_one_per_message. Qed.
+Print Assumptions C16_mbox_any_quoting_one_per_message.
+
+Theorem C16_mboxo_one_per_message :
+  forall msgs : list mbox_msg, forallb lines_ok msgs = true ->
+    split_mbox_messages (mbox_file (map (qmsg esc_o_line) msgs)) = split_result (map (qmsg esc_o_line) msgs).
+Proof. exact mboxo_one_per_message. Qed.
+Print Assumptions C16_mboxo_one_per_message.
+
+(* MMDF mailboxes (messages between ^A^A^A^A lines) are split at their From_ lines, but the delimiter lines are no
+   separators: they come back inside the messages *)
+Theorem C16_mbox_mmdf_delimiters_kept_refuted :
+  exists msgs : list bmsg, forallb (bmsg_ok LF) msgs = true /\
+    split_mbox_messages (mmdf_concat msgs) <> map snd msgs /\
+    List.length (split_mbox_messages (mmdf_concat msgs)) = List.length msgs /\
+    forallb (fun m => existsb (N.eqb 1) m) (split_mbox_messages (mmdf_concat msgs)) = true.
+Proof. exact mmdf_delimiters_kept. Qed.
+Print Assumptions C16_mbox_mmdf_delimiters_kept_refuted.
+
 (* ---- ALTERNATIVE definition split_mbox_messages_rd (fixes/proposed-not-applied/C16-mbox-unquote-from.patch, NOT the code at HEAD):
    undoing the quoting while splitting gives split (concat (quote msgs)) = msgs with no hypothesis on the bodies *)
 Theorem C16_alt_mboxrd_roundtrip :
